@@ -53,7 +53,11 @@ abbrev Name := List String
 abbrev Key := List String
 abbrev Path := List String
 
-def lowerS (s : String) : String := s.map Char.toLower
+/-- ASCII lower-casing (written over `toList` so that the kernel can evaluate it on literals) -/
+def lowerS (s : String) : String := String.ofList (s.toList.map Char.toLower)
+
+/-- `strings.HasSuffix` -/
+def hasSuffix (s ext : String) : Bool := ext.toList.isSuffixOf s.toList
 def keyOf (n : Name) : Key := n.map lowerS
 def qualified (n : Name) : Bool := n.length ≥ 2
 
@@ -205,7 +209,7 @@ def fileKeys (sp : SmartPath) (p : Path) : List Key :=
   | some rel =>
     match rel.getLast? with
     | none => []
-    | some last => if last.endsWith sp.extension then (typedNames sp rel).map keyOf else []
+    | some last => if hasSuffix last sp.extension then (typedNames sp rel).map keyOf else []
 
 /-- `findExistingPath`: the origins of a key, in walk order -/
 def idx (cfg : Cfg) (l : Lid) (k : Key) : List Path :=
